@@ -24,8 +24,13 @@ import time
 
 if __name__ == "__main__":  # worker mode: `python -m harness.props.c08` (fresh interpreter, given PYTHONHASHSEED)
     from harness import core
+    from harness.props import c08_types as T
 else:
     from .. import core
+    from . import c08_types as T
+import collections
+import decimal
+import fractions
 Result = core.Result
 
 REQUIRED_THEOREMS = [
@@ -45,6 +50,9 @@ REQUIRED_THEOREMS = [
     "C08.fixed_frozenset_witness",
     "C08.fallback_collision_counterexample",
     "C08.fallback_collision_dict_counterexample",
+    "C08.regressed_ordereddict_collision_counterexample",
+    "C08.repaired_ordereddict_witness",
+    "C08.pinned_ordereddict_fallback_counterexample",
 ]
 TRUSTED_EXTRA = [
     "modelled, not verified: md5/sha1 (the theorems are about the byte stream handed to the digest; 'different stream => "
@@ -54,6 +62,10 @@ TRUSTED_EXTRA = [
     "the universe; str is modelled as its utf-8/surrogatepass bytes (code-point order = byte order of that encoding)",
     "Python's sorted() is modelled as: TypeError iff two of the keys are not comparable, else the unique sorted order "
     "(holds for hashable, NaN-free keys; validated by the correspondence on mixed-type keys)",
+    "extended universe (OrderedDict, dict/list/tuple/set/frozenset subclasses, defaultdict, Counter, deque, namedtuple, enum members, "
+    "Decimal, Fraction, complex, range, slice, bytearray, instances with __dict__/__slots__/__reduce__/__getstate__): oracle only, no Lean "
+    "model (except the top-level OrderedDict stream, `encodeOD`); for OrderedDict the code sorts the items like a dict's, so two orders of "
+    "the same items hash alike: only determinism and content discrimination are demanded of it",
     "outside the universe (property statement / DESIGN C08): aliased sub-objects (the same tuple object twice changes the "
     "memo stream), NaN as dict key or set element, recursive containers, numpy arrays, user classes",
 ]
@@ -62,7 +74,11 @@ RULE = ("recursive universe over None/bool/int/float/str/bytes/list/tuple/set/fr
         "near-colliding leaves (1, 1.0, True, 'a', b'a', ints around 2^8/2^16/2^31/2^63/2^2040, strings around 255/256 bytes, "
         "non-ASCII, lone surrogates), containers of 0..5 parts plus lists/dicts/sets around 1000/1001/2000 items and > 256 "
         "memoised objects, mixed-type (unorderable) keys, and 'digest twins' (keys replaced by their own joblib.hash); "
-        "non-trivial = the value has a container holding at least one part; distinct by canonical value (set/dict parts sorted)")
+        "non-trivial = the value has a container holding at least one part; distinct by canonical value (set/dict parts sorted). "
+        "EXTENDED universe (oracle only, counted separately as 'oracle-only-values'): the same generator with, at every nesting position, "
+        "OrderedDict / dict subclass / defaultdict / Counter / deque / list, tuple, set, frozenset subclasses / namedtuples / IntEnum, IntFlag "
+        "members / Decimal / Fraction / complex / range / slice / bytearray / instances with __dict__, __slots__, __reduce__, __getstate__ "
+        "(classes of harness/props/c08_types.py): values pickled through reduce, dictitems, listitems and setstate")
 
 # ----------------------------------------------------------------------------- descs <-> Python values
 # desc := ["N"] | ["b", bool] | ["i", "<decimal>"] | ["f", "<16 hex digits of pack('>d')>"] | ["s", "<hex utf-8 surrogatepass>"]
@@ -100,6 +116,8 @@ def build(d, order=None, strings=None):
         return [build(x, order, strings) for x in d[1]]
     if t == "t":
         return tuple([build(x, order, strings) for x in d[1]])
+    if t == "x":
+        return build_x(d[1], d[2], order, strings)
     parts = list(d[1])
     if order == "rev":
         parts.reverse()
@@ -120,6 +138,94 @@ def build(d, order=None, strings=None):
     raise core.InfraError(f"bad desc {d!r}")
 
 
+# Extended universe (oracle-only, outside the Lean model's PyVal): ["x", kind, payload].  Shapes of the payload:
+X_SEQ = {"dq", "lsub", "tsub", "nt_point", "nt_pair", "sl", "slots", "red", "gs"}   # [desc…], order is part of the value
+X_USET = {"ssub", "zsub"}                                                          # [desc…], a hash container: order is NOT
+X_PAIRS_ORD = {"od"}                                                               # [[k, v]…] OrderedDict (see `canon`)
+X_PAIRS = {"dsub", "ddi", "ddl", "ctr"}                                            # [[k, v]…] hash containers
+X_ATTRS = {"obj", "obj2"}                                                          # [[name, vdesc]…] instance __dict__
+X_RAW = {"enum", "dec", "frac", "cx", "rg", "ba"}                                  # JSON scalars
+X_HASHABLE = {"tsub", "nt_point", "nt_pair", "zsub", "enum", "dec", "frac", "cx", "rg", "obj", "obj2", "slots", "red", "gs"}
+
+
+def _order(parts, order):
+    parts = list(parts)
+    if order == "rev":
+        parts.reverse()
+    elif order is not None:
+        order.shuffle(parts)
+    return parts
+
+
+def build_x(kind, p, order, strings):
+    b = lambda x: build(x, order, strings)  # noqa: E731
+    if kind in X_SEQ:
+        xs = [b(x) for x in p]
+        if kind == "dq":
+            return collections.deque(xs)
+        if kind == "lsub":
+            return T.ListSub(xs)
+        if kind == "tsub":
+            return T.TupleSub(xs)
+        if kind == "nt_point":
+            return T.Point(*xs)
+        if kind == "nt_pair":
+            return T.Pair(*xs)
+        if kind == "sl":
+            return slice(*xs)
+        if kind == "slots":
+            return T.Slots(*xs)
+        if kind == "red":
+            return T.Reduced(*xs)
+        if kind == "gs":
+            return T.Stateful(xs[0])
+    if kind in X_USET:
+        xs = [b(x) for x in _order(p, order)]
+        return T.SetSub(xs) if kind == "ssub" else T.FrozenSub(xs)
+    if kind == "od":
+        return collections.OrderedDict([(b(k), b(v)) for k, v in p])
+    if kind in X_PAIRS:
+        out = {"dsub": T.DictSub, "ddi": lambda: collections.defaultdict(int), "ddl": lambda: collections.defaultdict(list),
+               "ctr": collections.Counter}[kind]()
+        for k, v in _order(p, order):
+            out[b(k)] = b(v)
+        return out
+    if kind in X_ATTRS:
+        cls = T.Plain if kind == "obj" else T.Plain2
+        return cls(**{n: b(v) for n, v in _order(p, order)})
+    if kind == "enum":
+        return T.ENUMS[p]
+    if kind == "dec":
+        return decimal.Decimal(p)
+    if kind == "frac":
+        return fractions.Fraction(int(p[0]), int(p[1]))
+    if kind == "cx":
+        return complex(struct.unpack(">d", bytes.fromhex(p[0]))[0], struct.unpack(">d", bytes.fromhex(p[1]))[0])
+    if kind == "rg":
+        return range(*[int(x) for x in p])
+    if kind == "ba":
+        return bytearray(bytes.fromhex(p))
+    raise core.InfraError(f"bad extended desc kind {kind!r}")
+
+
+def children(d):
+    """Child descs of a node (values and keys alike)."""
+    t = d[0]
+    if t in ("l", "t", "e", "z"):
+        return list(d[1])
+    if t == "d":
+        return [x for kv in d[1] for x in kv]
+    if t == "x":
+        k, p = d[1], d[2]
+        if k in X_SEQ or k in X_USET:
+            return list(p)
+        if k in X_PAIRS or k in X_PAIRS_ORD:
+            return [x for kv in p for x in kv]
+        if k in X_ATTRS:
+            return [v for _, v in p]
+    return []
+
+
 def canon(d):
     """Identity of the VALUE a desc denotes: insertion order of set/frozenset/dict parts forgotten."""
     t = d[0]
@@ -129,32 +235,41 @@ def canon(d):
         return t + "[" + ",".join(canon(x) for x in d[1]) + "]"
     if t in ("e", "z"):
         return t + "{" + ",".join(sorted(canon(x) for x in d[1])) + "}"
+    if t == "x":
+        k, p = d[1], d[2]
+        if k in X_SEQ:
+            return "x:" + k + "[" + ",".join(canon(x) for x in p) + "]"
+        if k in X_USET:
+            return "x:" + k + "{" + ",".join(sorted(canon(x) for x in p)) + "}"
+        if k in X_PAIRS or k in X_PAIRS_ORD:
+            # OrderedDict: two orders of the same items ARE different Python values, but Hasher sorts the items of every
+            # mapping it pickles (dictitems go through _batch_setitems), so they hash alike.  The property speaks of
+            # dicts/sets/frozensets; for OrderedDict only determinism and CONTENT discrimination are demanded here.
+            return "x:" + k + "{" + ",".join(sorted(canon(a) + ":" + canon(b) for a, b in p)) + "}"
+        if k in X_ATTRS:
+            return "x:" + k + "{" + ",".join(sorted(n + "=" + canon(v) for n, v in p)) + "}"
+        return "x:" + k + ":" + json.dumps(p)
     return "d{" + ",".join(sorted(canon(k) + ":" + canon(v) for k, v in d[1])) + "}"
 
 
 def kinds(d, acc=None):
     acc = set() if acc is None else acc
-    acc.add(d[0])
-    if d[0] in ("l", "t", "e", "z"):
-        for x in d[1]:
-            kinds(x, acc)
-    elif d[0] == "d":
-        for k, v in d[1]:
-            kinds(k, acc)
-            kinds(v, acc)
+    acc.add(d[0] if d[0] != "x" else "x:" + d[1])
+    for c in children(d):
+        kinds(c, acc)
     return acc
 
 
+def extended(d):
+    return any(k.startswith("x:") for k in kinds(d))
+
+
 def size(d):
-    if d[0] in ("l", "t", "e", "z"):
-        return 1 + sum(size(x) for x in d[1])
-    if d[0] == "d":
-        return 1 + sum(size(k) + size(v) for k, v in d[1])
-    return 1
+    return 1 + sum(size(c) for c in children(d))
 
 
 def nontrivial(d):
-    return d[0] in "ltezd" and len(d[1]) > 0
+    return len(children(d)) > 0
 
 
 def tokens(obj, out):
@@ -277,12 +392,72 @@ def gen_hashable(rng, depth, homog=None):
     if homog == "y":
         return ["y", rng.choice(BYTES_LEAVES).hex()]
     r = rng.random()
+    if rng.random() < X_RATE[0] * 0.6:
+        return gen_x_hashable(rng, depth)
     if depth <= 0 or r < 0.62:
         return gen_leaf(rng, hashable=True)
     if r < 0.85:
         n = rng.choice([0, 1, 1, 2, 2, 3, 4, 5])
         return ["t", [gen_hashable(rng, depth - 1) for _ in range(n)]]
     return ["z", gen_keys(rng, depth - 1, rng.choice([0, 1, 2, 2, 3, 4]))]
+
+
+ENUM_NAMES = sorted(T.ENUMS)
+DEC_LEAVES = ["0", "1", "1.0", "1.5", "-1", "1E+2", "100", "0.1", "255", "Infinity"]
+
+
+def gen_x_hashable(rng, depth):
+    """Hashable values of the extended universe."""
+    k = rng.choice(["enum", "enum", "dec", "frac", "cx", "rg", "nt_point", "nt_pair", "tsub", "zsub", "obj", "obj2", "slots", "red", "gs"])
+    if k == "enum":
+        return ["x", k, rng.choice(ENUM_NAMES)]
+    if k == "dec":
+        return ["x", k, rng.choice(DEC_LEAVES)]
+    if k == "frac":
+        return ["x", k, [str(rng.choice([0, 1, 1, 2, 3, -1, 5])), str(rng.choice([1, 1, 2, 3]))]]
+    if k == "cx":
+        return ["x", k, [_f(rng.choice([0.0, 1.0, -0.0, 2.0]))[1], _f(rng.choice([0.0, 1.0, 2.0]))[1]]]
+    if k == "rg":
+        return ["x", k, [str(rng.choice([0, 1])), str(rng.choice([0, 1, 3, 255, 256])), str(rng.choice([1, 1, 2]))]]
+    sub = lambda: gen_hashable(rng, max(depth - 1, 0))  # noqa: E731
+    if k in ("nt_point", "nt_pair", "slots", "red"):
+        return ["x", k, [sub(), sub()]]
+    if k == "gs":
+        return ["x", k, [sub()]]
+    if k == "tsub":
+        return ["x", k, [sub() for _ in range(rng.choice([0, 1, 2, 3, 4]))]]
+    if k == "zsub":
+        return ["x", k, gen_keys(rng, max(depth - 1, 0), rng.choice([0, 1, 2, 3, 4]))]
+    names = rng.sample(["a", "b", "c", "x", "_sequence", "payload"], rng.choice([0, 1, 2, 3]))
+    return ["x", k, [[n, sub()] for n in names]]
+
+
+def gen_x_value(rng, depth):
+    """Values of the extended universe (any position that need not be hashable)."""
+    r = rng.random()
+    if r < 0.3:
+        return gen_x_hashable(rng, depth)
+    n = rng.choice([0, 1, 1, 2, 2, 3, 4])
+    sub = lambda: gen_value(rng, depth - 1)  # noqa: E731
+    k = rng.choice(["od", "od", "od", "dsub", "dsub", "ddi", "ddl", "ctr", "dq", "lsub", "ssub", "ssub", "sl", "ba", "obj", "gs", "red", "slots"])
+    if k in ("od", "dsub", "ddi", "ddl"):
+        return ["x", k, [[key, sub()] for key in gen_keys(rng, depth - 1, n)]]
+    if k == "ctr":
+        return ["x", k, [[key, _i(rng.choice([1, 1, 2, 3, 255, 256]))] for key in gen_keys(rng, depth - 1, n)]]
+    if k in ("dq", "lsub"):
+        return ["x", k, [sub() for _ in range(n)]]
+    if k == "ssub":
+        return ["x", k, gen_keys(rng, depth - 1, n)]
+    if k == "sl":
+        return ["x", k, [rng.choice([["N"], _i(0), _i(1), _i(2)]) for _ in range(3)]]
+    if k == "ba":
+        return ["x", k, rng.choice(BYTES_LEAVES[:9]).hex()]
+    if k == "obj":
+        names = rng.sample(["a", "b", "c", "x", "_sequence"], min(n, 4))
+        return ["x", k, [[nm, sub()] for nm in names]]
+    if k == "gs":
+        return ["x", k, [sub()]]
+    return ["x", k, [sub(), sub()]]
 
 
 def gen_keys(rng, depth, n):
@@ -315,8 +490,13 @@ def gen_keys(rng, depth, n):
     return out
 
 
+X_RATE = [0.0]  # probability of an extended (oracle-only) node at a position; set per generated value
+
+
 def gen_value(rng, depth):
     r = rng.random()
+    if rng.random() < X_RATE[0]:
+        return gen_x_hashable(rng, depth) if depth <= 0 else gen_x_value(rng, depth)
     if depth <= 0 or r < 0.3:
         return gen_leaf(rng)
     n = rng.choice([0, 1, 1, 2, 2, 3, 3, 4, 5])
@@ -415,16 +595,83 @@ def digest_twin(joblib, d, rng):
     return None
 
 
+def _x(kind, payload):
+    return ["x", kind, payload]
+
+
+def corpus_x():
+    """Near-colliding values of the extended universe: empty vs non-empty, one item / one key changed, same content in
+    another type.  First the inputs of F40 (the one-shot item iterator of OrderedDict / dict subclasses)."""
+    a1, a2, b1 = [_s("a"), _i(1)], [_s("a"), _i(2)], [_s("b"), _i(1)]
+    mixed = [[_i(1), _s("x")], [_s("a"), _s("y")]]
+    fz = [[["z", [_s("k")]], _i(1)], [["z", [_s("j")]], _i(2)]]
+    out = []
+    for kind in ("od", "dsub", "ddi", "ddl"):
+        out += [_x(kind, []), _x(kind, [a1]), _x(kind, [a2]), _x(kind, [b1]), _x(kind, [a1, b1]), _x(kind, [b1, a1]), _x(kind, mixed),
+                _x(kind, [mixed[1], mixed[0]]), _x(kind, [[_i(1), _s("x")]]), _x(kind, fz), _x(kind, [fz[0]]),
+                ["l", [_x(kind, [a1]), _x(kind, [a2])]], ["d", [[_s("k"), _x(kind, [a1])]]], ["d", [[_s("k"), _x(kind, [])]]]]
+    out += [["d", [a1]], ["d", [a1, b1]], ["d", mixed]]
+    out += [_x("ctr", []), _x("ctr", [a1]), _x("ctr", [a2]), _x("ctr", [a1, b1]), _x("ctr", [[_i(1), _i(1)], [_s("a"), _i(1)]])]
+    one, two = _i(1), _i(2)
+    for kind, plain in (("dq", "l"), ("lsub", "l"), ("tsub", "t"), ("ssub", "e"), ("zsub", "z")):
+        out += [_x(kind, []), _x(kind, [one]), _x(kind, [two]), _x(kind, [one, two]), [plain, []], [plain, [one]], [plain, [one, two]],
+                _x(kind, [_s("a"), _s("b"), _s("c"), _s("d")]), _x(kind, [one, _s("a")])]
+    out += [_x("ssub", [["z", [_s("a")]], ["z", [_s("b")]]]), _x("zsub", [["t", [["z", [_s("a")]]]], ["t", [["z", [_s("b")]]]]]),
+            ["e", [_x("zsub", [_s("a")]), _x("zsub", [_s("b")]), _x("zsub", [_s("c")])]],
+            ["e", [_x("nt_point", [one, ["z", [_s("a")]]]), _x("nt_point", [one, ["z", [_s("b")]]])]],
+            ["e", [_x("tsub", [["z", [_s("a")]]]), _x("tsub", [["z", [_s("b")]]])]]]
+    out += [_x("nt_point", [one, two]), _x("nt_pair", [one, two]), ["t", [one, two]], _x("tsub", [one, two]), _x("nt_point", [two, one]),
+            _x("slots", [one, two]), _x("red", [one, two]), _x("slots", [two, one]), _x("red", [one, one]),
+            _x("gs", [one]), _x("gs", [two]), _x("gs", [["e", [_s("a"), _s("b"), _s("c")]]]),
+            _x("obj", []), _x("obj2", []), _x("obj", [["a", one]]), _x("obj2", [["a", one]]), _x("obj", [["a", two]]), _x("obj", [["b", one]]),
+            _x("obj", [["a", one], ["b", two]]), _x("obj", [["b", two], ["a", one]]), ["d", [[_s("a"), one]]],
+            _x("obj", [["a", ["z", [_s("p"), _s("q"), _s("r")]]]]), _x("obj", [["a", _x("od", [a1])]]), _x("obj", [["a", _x("od", [])]])]
+    out += [_x("enum", n) for n in ENUM_NAMES] + [_i(0), _i(1), _i(2), _i(4), _i(6), ["b", True]]
+    out += [_x("dec", n) for n in DEC_LEAVES] + [_x("frac", ["1", "1"]), _x("frac", ["1", "2"]), _x("frac", ["3", "2"]), _f(1.5), _f(0.5),
+                                                 _s("1.5"), _s("1")]
+    out += [_x("cx", [_f(1.0)[1], _f(0.0)[1]]), _x("cx", [_f(0.0)[1], _f(1.0)[1]]), _x("cx", [_f(0.0)[1], _f(0.0)[1]]),
+            _x("cx", [_f(-0.0)[1], _f(0.0)[1]]), ["t", [_f(1.0), _f(0.0)]]]
+    out += [_x("rg", ["0", "3", "1"]), _x("rg", ["0", "3", "2"]), _x("rg", ["1", "3", "1"]), _x("rg", ["0", "0", "1"]),
+            _x("sl", [_i(0), _i(3), _i(1)]), _x("sl", [["N"], _i(3), ["N"]]), _x("sl", [_i(0), _i(3), ["N"]]), ["t", [_i(0), _i(3), _i(1)]],
+            _x("ba", ""), _x("ba", b"a".hex()), _x("ba", b"ab".hex()), ["y", b"a".hex()], ["y", ""],
+            ["l", [_x("ba", b"aa".hex()), _x("ba", b"aa".hex())]], ["l", [_x("dec", "1.5"), _x("dec", "1.5")]]]
+    out += [["d", [[_x("enum", "Color.RED"), _s("x")], [_x("enum", "Color.GREEN"), _s("y")]]],
+            ["d", [[_x("dec", "1.5"), _s("x")], [_i(2), _s("y")], [_x("frac", ["5", "2"]), _s("z")]]],
+            ["e", [_x("cx", [_f(1.0)[1], _f(1.0)[1]]), _x("cx", [_f(2.0)[1], _f(1.0)[1]]), _x("rg", ["0", "3", "1"])]],
+            ["e", [_x("obj", [["a", one]]), _x("obj", [["a", two]]), _x("obj2", [["a", one]])]],
+            _x("od", [[_x("obj", [["a", one]]), one], [_x("obj", [["a", two]]), two]])]
+    return out
+
+
+N_EXTENDED = dict(quick=320, thorough=2500)
+
+
 def universe(ctx, joblib, n, salt, with_big=True):
     rng = ctx.rng(salt)
     descs = list(CORPUS)
     if with_big:
         descs += big_values(rng, ctx.thorough)
+    n_model = n - len(descs)
+    if with_big:
+        descs += corpus_x()
+    n = len(descs) + max(n_model, 0) if n else 0
     while len(descs) < n:
         d = gen_value(rng, rng.choice([1, 2, 2, 3, 3, 4]))
         if size(d) > 400:
             continue
         descs.append(d)
+    # the extended universe: the same generator with reduce / dictitems / listitems / setstate values at every position
+    rx = ctx.rng(salt + "/extended")
+    X_RATE[0] = 0.3
+    try:
+        target = len(descs) + (N_EXTENDED["thorough" if ctx.thorough else "quick"] if n else 0)
+        while len(descs) < target:
+            d = gen_value(rx, rx.choice([1, 2, 2, 3, 3]))
+            if size(d) > 300 or not extended(d):
+                continue
+            descs.append(d)
+    finally:
+        X_RATE[0] = 0.0
     twins = {}
     base = len(descs)
     for i in range(base):
@@ -486,7 +733,14 @@ def run_workers(cases):
 
 
 def container_tag(d):
+    """Which kind of hash container the value holds (most specific first): the classification of an unstable digest."""
     ks = kinds(d)
+    for k, name in (("x:ssub", "set-subclass"), ("x:zsub", "frozenset-subclass"), ("x:od", "OrderedDict"), ("x:dsub", "dict-subclass"),
+                    ("x:ddi", "defaultdict"), ("x:ddl", "defaultdict"), ("x:ctr", "Counter")):
+        if k in ks:
+            return name
+    if any(k.startswith("x:") for k in ks) and not (ks & {"e", "z", "d"}):
+        return "extended-no-hash-container"
     if "z" in ks:
         return "frozenset"
     if "e" in ks and "d" in ks:
@@ -501,8 +755,27 @@ def container_tag(d):
 TYPE_NAME = dict(N="None", b="bool", i="int", f="float", s="str", y="bytes", l="list", t="tuple", e="set", z="frozenset", d="dict")
 
 
+X_NAME = dict(od="OrderedDict", dsub="dict-subclass", ddi="defaultdict", ddl="defaultdict", ctr="Counter", dq="deque", lsub="list-subclass",
+              tsub="tuple-subclass", ssub="set-subclass", zsub="frozenset-subclass", nt_point="namedtuple", nt_pair="namedtuple",
+              enum="enum", dec="Decimal", frac="Fraction", cx="complex", rg="range", sl="slice", ba="bytearray", obj="object",
+              obj2="object", slots="slots-object", red="reduce-object", gs="getstate-object")
+
+
+def type_name(d):
+    return X_NAME[d[1]] if d[0] == "x" else TYPE_NAME[d[0]]
+
+
 def first_difference(a, b):
     """Pair of type names where two descs first differ (for the collision signature)."""
+    if a[0] == "x" or b[0] == "x":
+        if a[0] != b[0] or a[1] != b[1]:
+            return "-vs-".join(sorted([type_name(a), type_name(b)]))
+        ca, cb = children(a), children(b)
+        if len(ca) == len(cb) and a[1] in X_SEQ:
+            for x, y in zip(ca, cb):
+                if canon(x) != canon(y):
+                    return first_difference(x, y)
+        return "two-" + type_name(a) + "s"
     if a[0] != b[0]:
         return TYPE_NAME[a[0]] + "-vs-" + TYPE_NAME[b[0]]
     if a[0] in ("l", "t") and len(a[1]) == len(b[1]):
@@ -549,7 +822,8 @@ def oracle(ctx, joblib, res, descs, twins, salt):
         by_digest.setdefault(ref, []).append(i)
         if nontrivial(d):
             res.nontrivial.add(canon(d))
-        res.count("top=" + TYPE_NAME[d[0]])
+        res.count("top=" + type_name(d))
+        res.count("oracle-only-values (extended universe)" if extended(d) else "model+oracle-values")
         res.count("containers=" + tag)
     # (d) all pairs: equal digest <=> same value.  Grouping by digest covers every pair.
     n = len(descs)
@@ -593,6 +867,9 @@ def oracle(ctx, joblib, res, descs, twins, salt):
 def correspond(ctx, joblib, res, descs):
     old = impl_is_old(joblib)
     res.extra["implementation_frozenset_path"] = "pickle reduction in iteration order (pinned code)" if old else "sorted wrapper (F6 repaired)"
+    od1 = impl_stream(joblib, collections.OrderedDict(a=1))[0]
+    od_ver = "pinned" if old else "regressed" if od1 == impl_stream(joblib, collections.OrderedDict())[0] else "repaired"
+    res.extra["implementation_batch_setitems_on_iterator"] = od_ver
     reqs, meta = [], []
     for d in descs:
         v = build(d)
@@ -604,6 +881,19 @@ def correspond(ctx, joblib, res, descs):
             res.evaluations += 1
             if got != hashlib.new(name, s2).hexdigest() or s2 != stream:
                 res.diverge("digest-is-" + name + "-of-stream", d, got, hashlib.new(name, s2).hexdigest())
+        if extended(d):
+            # outside the model's PyVal: oracle only — except a top-level OrderedDict of modelled items (`encodeOD`, F40)
+            res.count("correspondence-skipped (extended universe)")
+            if d[0] == "x" and d[1] == "od" and not any(extended(c) for c in children(d)) and not (od_ver == "pinned" and "z" in kinds(d)):
+                plain = dict(v)
+                tab = {}
+                h_table(joblib, plain, tab)
+                head = [str(len(tab))]
+                for k, dg in tab.items():
+                    head += [k, dg]
+                reqs.append(" ".join(["encod", od_ver] + head + tokens(plain, [])))
+                meta.append((d, stream.hex(), "OrderedDict-stream(" + od_ver + ")"))
+            continue
         tab = {}
         h_table(joblib, v, tab)
         toks = tokens(v, [])
@@ -619,7 +909,8 @@ def correspond(ctx, joblib, res, descs):
             res.count("opcode=" + OPNAMES[op])
     # malformed requests must be rejected, never defaulted
     bad = ["", "enc", "enc fixed 0", "enc fixed 0 X", "enc new 0 N", "enc fixed 1 N", "enc fixed 0 L2 N", "enc fixed 0 N N", "enc fixed 0 Szz",
-           "enc fixed 0 D00", "enc fixed 0 I1.5", "enc fixed 1 80 abc N", "hash fixed 0 N", "enc fixed 0 M1 N"]
+           "enc fixed 0 D00", "enc fixed 0 I1.5", "enc fixed 1 80 abc N", "hash fixed 0 N", "enc fixed 0 M1 N",
+           "encod fixed 0 M0", "encod repaired 0 N", "encod repaired 0 L0", "encod repaired 0 M1 N"]
     replies = ctx.driver().run(reqs + bad)
     for (d, want, stream_name), rep in zip(meta, replies):
         res.traces_validated += 1
@@ -645,6 +936,8 @@ def old_model_applies(d, in_key=False, empties=None):
     top = empties is None
     empties = [0] if top else empties
     t = d[0]
+    if t == "x":
+        return False
     ok = True
     if t == "z":
         if in_key:
